@@ -349,3 +349,168 @@ func checkC14(cc Case, r *simrt.Result) *Outcome {
 func init() {
 	Props["C14"] = &Scenario{Gen: genC14, Check: checkC14}
 }
+
+// ---------- C06: event-based gateway: exactly one alternative wins and the instance completes ----------
+
+func genC06(d *Draw) Case {
+	defs := &Definitions{}
+	g := &Graph{ID: "P1", Executable: true}
+	defs.Procs = []*Graph{g}
+	defs.Signals = []string{"s1", "s2", "sX"}
+	defs.Messages = []string{"m1", "mX"}
+	alts := []EventDef{{Kind: "signal", Ref: "s1"}, {Kind: "message", Ref: "m1"}, {Kind: "signal", Ref: "s2"}}
+	na := 2 + d.N(2)
+	g.addNode(&Node{ID: "Start", Kind: "start"})
+	cur := "Start"
+	if d.Bool() {
+		g.addNode(&Node{ID: "T0", Kind: "task", Results: []string{"r_T0"}})
+		g.connect(defs, cur, "T0", nil, -1)
+		cur = "T0"
+	}
+	g.addNode(&Node{ID: "EG", Kind: "evgw"})
+	g.connect(defs, cur, "EG", nil, -1)
+	for i := 0; i < na; i++ {
+		c := g.addNode(&Node{ID: fmt.Sprintf("C%d", i+1), Kind: "catch", Events: []EventDef{alts[i]}})
+		t := g.addNode(&Node{ID: fmt.Sprintf("T%d", i+1), Kind: "task", Results: []string{fmt.Sprintf("r_T%d", i+1)}})
+		e := g.addNode(&Node{ID: fmt.Sprintf("E%d", i+1), Kind: "end"})
+		g.connect(defs, "EG", c.ID, nil, -1)
+		g.connect(defs, c.ID, t.ID, nil, -1)
+		g.connect(defs, t.ID, e.ID, nil, -1)
+	}
+	g.index()
+	c := &ProcCase{Buf: d.N(17), Hold: d.N(3)}
+	// event plan: a non-empty sequence over the competing events (plus an occasional stranger)
+	ne := 1 + d.N(4)
+	conc := d.N(3) == 2
+	var evd []string
+	pool := append(append([]EventDef{}, alts[:na]...), EventDef{Kind: "signal", Ref: "sX"})
+	for i := 0; i < ne; i++ {
+		e := pool[d.N(len(pool))]
+		if i == 0 {
+			e = alts[d.N(na)] // the first one is always a real competitor
+		}
+		ep := EvPlan{Kind: e.Kind, Ref: e.Ref}
+		if conc {
+			// delivered from separate goroutines at the same moment: once the gateway has armed its alternatives
+			ep.Own = true
+			ep.After = 0
+			ep.WhenListening = na
+		}
+		c.Events = append(c.Events, ep)
+		evd = append(evd, e.Ref)
+	}
+	tags := []string{}
+	if conc {
+		tags = append(tags, "concurrent-events")
+	}
+	c.Prog = &Program{Defs: defs, Vars: map[string]any{}, Tags: tags, Desc: fmt.Sprintf("event gateway with %d alternatives %v, events %v concurrent=%v", na, alts[:na], evd, conc)}
+	c.Picks = drawPicks(d, 32)
+	c.Meta = map[string]int{"conc": b2i(conc), "na": na}
+	return c
+}
+
+func checkC06(cc Case, r *simrt.Result) *Outcome {
+	c := cc.(*ProcCase)
+	o := &Outcome{}
+	var vl vlist
+	genericRunViolations("C06", r, &vl)
+	for _, p := range r.Panics {
+		vl.add("C06/panic", "%s", p)
+	}
+	eventCallsReturned("C06", c, &vl)
+	na := c.Meta["na"]
+	if c.Meta["conc"] == 0 {
+		tg := CheckTokenGame("C06", c.Prog, c.env.L.E)
+		vl.v = append(vl.v, tg.Viol...)
+	}
+	// schedule-independent clauses, straight from the trace stream
+	det := 0
+	branchReq := map[string]int{}
+	delivered := map[string]bool{}
+	deliveredArmed := map[string]bool{} // delivered after every alternative had reported that it listens
+	listening := 0
+	complete := false
+	quiesced := false
+	termAt := map[string]int{}
+	for _, ev := range c.env.L.E {
+		switch ev.Kind {
+		case "t:determination":
+			det++
+		case "t:task":
+			if ev.A != "T0" {
+				branchReq[ev.A]++
+			}
+		case "t:listening":
+			listening++
+		case "ev", "rev":
+			delivered[ev.A+":"+ev.B] = true
+			if listening >= na {
+				deliveredArmed[ev.A+":"+ev.B] = true
+			}
+		case "t:term":
+			termAt[ev.A]++
+		case "complete":
+			if ev.A == "true" && !quiesced {
+				complete = true
+			}
+		case "quiescent":
+			quiesced = true
+		}
+	}
+	g := c.Prog.Defs.Procs[0]
+	anyCompetitor := false
+	for i := 1; i <= na; i++ {
+		dff := g.Node(fmt.Sprintf("C%d", i)).Events[0]
+		if deliveredArmed[dff.Kind+":"+dff.Ref] {
+			anyCompetitor = true
+		}
+	}
+	if quiesced {
+		total := 0
+		for k, n := range branchReq {
+			total += n
+			idx := 0
+			fmt.Sscanf(k, "T%d", &idx)
+			if idx >= 1 && idx <= na {
+				dff := g.Node(fmt.Sprintf("C%d", idx)).Events[0]
+				if !delivered[dff.Kind+":"+dff.Ref] {
+					vl.add("C06/branch-without-event", "branch task %s was requested although its event %s was never delivered", k, dff.Ref)
+				}
+			}
+		}
+		if total > 1 {
+			vl.add("C06/several-winners", "%d branch tasks were requested after the event-based gateway (%v): exactly one alternative may win", total, branchReq)
+		}
+		if det > 1 {
+			vl.add("C06/several-determinations", "DeterminationMadeTrace seen %d times", det)
+		}
+		if anyCompetitor {
+			if total == 0 {
+				vl.add("C06/no-winner", "a competing event was delivered while the gateway was armed but no branch continued (determinations=%d)", det)
+			}
+			if total == 1 && !complete {
+				vl.add("C06/not-complete", "one alternative won and its task was answered, but the instance did not complete: withdrawn alternatives keep it alive (terminations seen: %v)", termAt)
+			}
+		}
+	}
+	o.Viol = vl.v
+	o.Tags = c.Prog.Tags
+	o.Nontrivial = r.Switches > 0
+	probe(o, "concurrent-delivery", c.Meta["conc"] == 1)
+	probe(o, "several-competitors-delivered", func() bool {
+		n := 0
+		for i := 1; i <= na; i++ {
+			dff := g.Node(fmt.Sprintf("C%d", i)).Events[0]
+			if delivered[dff.Kind+":"+dff.Ref] {
+				n++
+			}
+		}
+		return n > 1
+	}())
+	o.Sample = map[string]any{"program": c.Prog.Desc, "branch_requests": branchReq, "determinations": det}
+	return o
+}
+
+func init() {
+	Props["C06"] = &Scenario{Gen: genC06, Check: checkC06}
+}
